@@ -120,14 +120,21 @@ class C13(Prop):
         text = docmodel.join(lines)
         path = "/simfs/c13/in.las"
         fs.store_text(path, text)
-        if b["channel"] == "path":
-            las = lasio.read(path, mnemonic_case=b["case"])
-        elif b["channel"] == "string":
-            las = lasio.read(text, mnemonic_case=b["case"])
-        else:
-            fh = fs.open_as_caller(path, "r")
-            las = lasio.read(fh, mnemonic_case=b["case"])
-            fh.close()
+        try:
+            if b["channel"] == "path":
+                las = lasio.read(path, mnemonic_case=b["case"])
+            elif b["channel"] == "string":
+                las = lasio.read(text, mnemonic_case=b["case"])
+            else:
+                fh = fs.open_as_caller(path, "r")
+                try:
+                    las = lasio.read(fh, mnemonic_case=b["case"])
+                finally:
+                    fh.close()
+        except Exception as e:
+            res.violate("C13.read-raised", "reading a file with mnemonics W=%r C=%r P=%r raised %s: %s" % (
+                f["sections"]["W"], f["sections"]["C"], f["sections"]["P"], type(e).__name__, str(e).strip().splitlines()[-1][:200] if str(e).strip() else ""))
+            return None
         cf = CASEF[b["case"]]
         ci = b["case"] != "preserve"
         expect = {"well": ["STRT", "STOP", "STEP", "NULL"] + f["sections"]["W"],
